@@ -238,6 +238,7 @@ func runC05(c *Checker) {
 	// the retry loops of the transport callbacks must not wedge on their own mutexes
 	ruleLOCKBAL(c, targetMbox)
 	ruleRETRY(c)
+	ruleCallbackLocks(c, "DUPLEX")
 	ruleDUPLEX(c)
 	// LAYERS: the end-to-end statement is the composition of the layers below; it fails as soon as
 	// one of them does. The obligations of the delivery (C01), progress (C06), concurrency (C18),
@@ -1172,6 +1173,7 @@ func runC17(c *Checker) {
 		}
 		c.decide(okInfo, "SIDDIR", "client|transport and connKit use the same stream IDs", fn.Pos(), "mailboxInfo.recvSID/sendSID are the connKit's receiveSID/sendSID", "the client's transport is configured with other stream IDs than the connection reports/uses for sending")
 	}
+	ruleStreamDirection(c)
 	// Refresh copies both unchanged
 	for _, pr := range [][2]string{{"RefreshClientConn", "ClientConn"}, {"RefreshServerConn", "ServerConn"}} {
 		fn := w.Func("mailbox." + pr[0])
@@ -1631,4 +1633,80 @@ func importLayers(c *Checker, ids ...string) {
 	if n < 10*len(ids) {
 		c.fail("LAYER", "imported obligations", 0, fmt.Sprintf("only %d obligations imported from %v", n, ids))
 	}
+}
+
+// ruleStreamDirection: the code that talks to the relay uses the stream ID of its own direction.
+// A function is on the receive side when it calls a receive API of the relay client
+// (RecvStream / Recv on a hashmailrpc stream, ClientConnTransport.Receive / ConnectReceive) and on
+// the send side when it calls a send API (SendStream / Send, ClientConnTransport.Send /
+// ConnectSend); a receive-side function never reads the send stream ID and vice versa. (GetSID
+// and the constructors give the two IDs their values; this is about where they are used.)
+func ruleStreamDirection(c *Checker) {
+	w := c.w
+	side := func(fn *ssa.Function) (recv, send bool) {
+		allInstrs(fn, func(in ssa.Instruction) {
+			ci, ok := in.(ssa.CallInstruction)
+			if !ok || !ci.Common().IsInvoke() {
+				return
+			}
+			m := ci.Common().Method
+			n := namedOf(ci.Common().Value.Type())
+			if n == nil || n.Obj().Pkg() == nil {
+				return
+			}
+			pkg, tn := n.Obj().Pkg().Path(), n.Obj().Name()
+			relay := strings.HasSuffix(pkg, "/hashmailrpc") || (strings.HasSuffix(pkg, "/mailbox") && tn == "ClientConnTransport")
+			if !relay {
+				return
+			}
+			switch m.Name() {
+			case "RecvStream", "Recv", "Receive", "ConnectReceive":
+				recv = true
+			case "SendStream", "Send", "ConnectSend":
+				send = true
+			}
+		})
+		return
+	}
+	isRecvField := func(f *types.Var) bool { return f != nil && (f.Name() == "receiveSID" || f.Name() == "recvSID") }
+	isSendField := func(f *types.Var) bool { return f != nil && f.Name() == "sendSID" }
+	n := 0
+	for _, fn := range w.Funcs {
+		if w.pkgShort(fn) != targetMbox || strings.HasSuffix(w.Fset.Position(fn.Pos()).Filename, "_test.go") {
+			continue
+		}
+		r, sd := side(fn)
+		// the implementations of the client transport interface are on the side their slot says
+		if fn.Signature.Recv() != nil {
+			if tr := w.Named("mailbox.ClientConnTransport"); tr != nil {
+				if iface, ok := tr.Underlying().(*types.Interface); ok && types.Implements(fn.Signature.Recv().Type(), iface) {
+					switch fn.Name() {
+					case "ConnectReceive", "Recv", "CloseReceive", "ReceiveConnected":
+						r, sd = true, false
+					case "ConnectSend", "Send", "CloseSend", "SendConnected":
+						r, sd = false, true
+					}
+				}
+			}
+		}
+		if r == sd {
+			continue // neither, or a function that drives both directions (constructors)
+		}
+		bad := ""
+		allInstrs(fn, func(in ssa.Instruction) {
+			fa, ok := in.(*ssa.FieldAddr)
+			if !ok {
+				return
+			}
+			f := structFieldOf(fa)
+			if (r && isSendField(f)) || (sd && isRecvField(f)) {
+				bad = f.Name() + " at " + w.pos(instrPos(fa))
+			}
+		})
+		n++
+		dir := map[bool]string{true: "receive", false: "send"}[r]
+		c.decide(bad == "", "SIDDIR", fnName(fn)+"|"+dir+" side uses its own stream ID", fn.Pos(), "no access to the other direction's stream ID",
+			fnName(fn)+" talks to the relay on the "+dir+" side but uses "+bad+": the two directions share a stream / the peer listens elsewhere")
+	}
+	c.decide(n >= 6, "SIDDIR", "stream direction sites", token.NoPos, fmt.Sprintf("%d relay-facing functions classified", n), fmt.Sprintf("only %d relay-facing functions found (server: recvFromStream, sendToStream, createReceiveMailBox, createSendMailBox; client transports)", n))
 }
